@@ -438,7 +438,7 @@ pub fn main(mode: Mode) {
                     .collect();
                 proptest::strategy::Union::new(arms)
             };
-            let outcome = vkit::run_prop(prop, vkit::workers_for(tier), tier.pick(2_000, 150_000), strategy, check);
+            let outcome = vkit::run_prop(prop, vkit::workers_for(tier), tier.pick(20_000, 400_000), strategy, check);
             let outcome = match outcome {
                 Outcome::Held if stats.distinct_nontrivial() < 2 => Outcome::Inconclusive("generator produced no non-trivial case".into()),
                 o => o,
